@@ -146,6 +146,26 @@ fn generate(cli: &Cli) -> Vec<Case> {
         adapters.strategy = strategy;
         adapters.localize = localize;
         let cfg = ServerCfg { secret: if rng.bool() { Some(b"s3cret".to_vec()) } else { None }, ..Default::default() };
+        let mut plan = plan;
+        // a returning player: its (valid) authentication cookie remembers where it was sent last
+        // time - one of today's candidates, a server that is gone, nothing. Where it goes now is
+        // for the filters and the strategy of *this* connection to say.
+        if intent == Intent::Transfer && cfg.secret.is_some() && rng.chance(2, 3) {
+            let returning = mk::ident(&mut rng, "returning");
+            let ck = crate::cookie::build(&mut rng, crate::cookie::Class::Valid, b"s3cret", &cfg.client_addr, 6 * 3600, &returning, &[]);
+            if let Some(payload) = ck.payload.as_ref().filter(|p| p.len() > 32)
+                && let Ok(mut j) = serde_json::from_slice::<Value>(&payload[32..])
+            {
+                let remembered = match (&discovery, rng.below(4)) {
+                    (Some(t), 0..=2) if !t.is_empty() => json!(t[rng.usize_below(t.len())].identifier),
+                    (_, 3) => Value::Null,
+                    _ => json!("a-server-that-is-gone"),
+                };
+                j["target"] = remembered;
+                let body = serde_json::to_vec(&j).expect("json");
+                plan.cookies = vec![(mk::AUTH_KEY.to_string(), Some(vp_common::refcrypto::sign_cookie(b"s3cret", &body)))];
+            }
+        }
         let class = format!("targets-{}/{}filter-{fname}/strategy-{sname}/{lname}/locale-{}", nt.min(3), if discovery.is_none() { "discovery-error/" } else { "" }, if locale.is_empty() { "empty" } else { &locale });
         out.push(Case { sc: default_scenario(&class, plan, adapters, cfg), class, locale, discovery });
     }
@@ -291,6 +311,78 @@ fn check(case: &Case, run: &Run) -> Vec<Finding> {
     out
 }
 
+/// Several filters in a row (`Vec<T>`, what the application builds from the configured list): the
+/// list each link is handed is exactly what the link before it returned, and a link that fails
+/// fails the chain - "if filtering fails, no Transfer is sent" starts here.
+fn filter_chain_histories(cli: &Cli, report: &mut Report) {
+    use passage_adapters::filter::FilterAdapter;
+    use vp_sim::recadapters::{AdapterScript, Rec};
+    let n = cli.scaled(cli.tier.pick(150, 3000));
+    let items: Vec<u64> = (0..n).collect();
+    let results = par_map(items, cli.threads(), |_, i| {
+        let mut rng = Rng::stream(cli.seed, 38_000 + i);
+        let rt = tokio::runtime::Builder::new_current_thread().enable_time().start_paused(true).build().expect("runtime");
+        rt.block_on(async {
+            let nt = rng.usize_below(6);
+            let input: Vec<passage_adapters::Target> = mk::targets(&mut rng, nt).iter().map(|t| t.to_target()).collect();
+            let nl = 1 + rng.usize_below(4);
+            let mut scripts = vec![];
+            for _ in 0..nl {
+                scripts.push(match rng.below(7) {
+                    0 | 1 => FilterScript::Identity,
+                    2 => FilterScript::Positions((0..nt).filter(|_| rng.bool()).collect()),
+                    3 => {
+                        let mut order: Vec<usize> = (0..nt).collect();
+                        rng.shuffle(&mut order);
+                        FilterScript::Positions(order)
+                    }
+                    4 => FilterScript::Positions(vec![]),
+                    5 => FilterScript::Fixed(mk::targets(&mut rng, 2)),
+                    _ => FilterScript::Err,
+                });
+            }
+            let links: Vec<Rec> = scripts.iter().map(|f| Rec::new(AdapterScript { filter: f.clone(), ..Default::default() })).collect();
+            let client: std::net::SocketAddr = "203.0.113.9:40000".parse().expect("addr");
+            let user = uuid::Uuid::from_u128(7);
+            // the links one after the other, by hand
+            let mut by_hand: Result<Vec<passage_adapters::Target>, String> = Ok(input.clone());
+            let manual: Vec<Rec> = scripts.iter().map(|f| Rec::new(AdapterScript { filter: f.clone(), ..Default::default() })).collect();
+            for l in &manual {
+                by_hand = match by_hand {
+                    Ok(t) => l.filter(&client, ("chain.example.org", 25565), 770, ("Chained", &user), t).await.map_err(|e| e.to_string()),
+                    Err(e) => Err(e),
+                };
+            }
+            let chained = links.filter(&client, ("chain.example.org", 25565), 770, ("Chained", &user), input.clone()).await.map_err(|e| e.to_string());
+            let calls: Vec<usize> = links.iter().map(|l| l.calls().len()).collect();
+            let same = match (&chained, &by_hand) {
+                (Ok(a), Ok(b)) => a.iter().map(TargetRec::from).collect::<Vec<_>>() == b.iter().map(TargetRec::from).collect::<Vec<_>>(),
+                (Err(_), Err(_)) => true,
+                _ => false,
+            };
+            // links behind a failed one must not be consulted
+            let first_err = scripts.iter().position(|f| matches!(f, FilterScript::Err));
+            let consulted_after_failure = first_err.map(|k| calls.iter().skip(k + 1).any(|c| *c > 0)).unwrap_or(false);
+            let detail = json!({"links": format!("{scripts:?}"), "input": input.iter().map(|t| t.identifier.clone()).collect::<Vec<_>>(), "chain": format!("{:?}", chained.as_ref().map(|v| v.iter().map(|t| t.identifier.clone()).collect::<Vec<_>>())), "one_after_the_other": format!("{:?}", by_hand.as_ref().map(|v| v.iter().map(|t| t.identifier.clone()).collect::<Vec<_>>())), "calls_per_link": calls});
+            let finding = if !same {
+                Some((if by_hand.is_err() { "filter-chain/failed-link-ignored" } else { "filter-chain/result-differs" }, "a chain of filters does not return what its links return one after the other", detail))
+            } else if consulted_after_failure {
+                Some(("filter-chain/link-consulted-after-failure", "a filter behind a failed one was still consulted", detail))
+            } else {
+                None
+            };
+            (nl, first_err.is_some(), finding)
+        })
+    });
+    for (nl, has_err, finding) in results {
+        report.eval(Some(&format!("filter-chain/{nl}-links/{}", if has_err { "one-fails" } else { "all-answer" })));
+        report.count("filter chains compared with their links applied one after the other", 1);
+        if let Some((sig, what, w)) = finding {
+            report.violation(sig, what, w);
+        }
+    }
+}
+
 /// The localization adapter lives as long as the application and is shared by all connections: one
 /// instance is asked a long random sequence of (locale, message) questions - the same locale for
 /// different messages, the same message for different locales, in any order - and every answer is
@@ -368,5 +460,6 @@ pub fn run_prop(cli: &Cli) -> i32 {
         }
     }
     adapter_histories(cli, &mut report);
+    filter_chain_histories(cli, &mut report);
     report.finish()
 }
